@@ -731,9 +731,12 @@ package larking
 // request through one of the seven reviewed http.Error sites (and then never
 // runs the handler); a grpc-timeout is refused only when it is not legal; the
 // routing snapshot is loaded once.
-//@ func (*Mux).serveGRPC serves C15 C08 C09 C12 C05 partial ghost count post pre panic
+//@ func (*Mux).serveGRPC serves C15 C08 C09 C12 C05 C14 partial ghost count post pre panic
 //@   requires m != nil && w != nil && r != nil
 //@   witness verifWitnessGRPCStatusDetails for panic[
+//@   count flushes `flusher.Flush(`
+//@   assert atcall `setOutgoingHeader(` [metadata-becomes-plain-headers-only-before-the-flush C14] flushes == 0
+//@   witness verifWitnessGRPCTrailer for metadata-becomes-plain-headers-only-before-the-flush
 //@   count hcalls `hd.handler(`
 //@   count refusals `http.Error(`
 //@   count loads `m.loadState(`
